@@ -70,7 +70,9 @@ def init_strategy(draw, tier="quick"):
     raw["rules"] = draw(gen.weights(raw, regime))
     raw["regime"] = regime
     kind = draw(st.sampled_from(KINDS_FLOAT if regime == "FLOAT" else KINDS_BOOL))
-    return {"g": raw, "kind": kind, "loopy": loopy, "salt": draw(st.one_of(st.none(), st.integers(0, 2**32 - 1)))}
+    # a cold 520-token context costs minutes on the cubic CKY parser: thorough tier only, one history in 50
+    cky_long = tier == "thorough" and draw(st.integers(0, 49)) == 0
+    return {"g": raw, "kind": kind, "loopy": loopy, "salt": draw(st.one_of(st.none(), st.integers(0, 2**32 - 1))), "cky_long": cky_long}
 
 
 # ---------------------------------------------------------------------------------------------
@@ -454,7 +456,7 @@ def run_machine(tier, hseed, n_examples, account, process, state):
                 op.append([t for t in self._context(data) if t != EOS][:3])
             self._do(op)
 
-        @precondition(lambda self: self.sim is not None and self.sim.init.get("loopy") and (tier == "thorough" or self.sim.kind not in ("CKY", "CKYLM", "BoolLM_c")) and not any(o[0] == "long" for o in self.case["ops"]))
+        @precondition(lambda self: self.sim is not None and self.sim.init.get("loopy") and (self.sim.init.get("cky_long") or self.sim.kind not in ("CKY", "CKYLM", "BoolLM_c")) and not any(o[0] == "long" for o in self.case["ops"]))
         @rule(data=st.data())
         def long_context(self, data):
             L = data.draw(st.integers(520, 700)) if self.sim.kind not in ("CKY", "CKYLM", "BoolLM_c") else data.draw(st.integers(520, 540))  # cubic parser
